@@ -112,6 +112,23 @@ class Num:
                     'BitOr': lambda: a | b, 'BitAnd': lambda: a & b, 'BitXor': lambda: a ^ b}.get(v[1], lambda: None)()
         if k == 'call':
             nm = v[1]
+            # a crate-private free function without value parameters that computes a length (a fragment factored out of
+            # several impls): its body, with the type arguments of the call
+            hf_ = self.facts.by_path.get(v[2]) if len(v) > 2 and isinstance(v[2], str) else None
+            if hf_ is not None and hf_.get('thir') and hf_.get('kind') == 'Fn' and not hf_.get('params') and not v[3] and getattr(self, '_fn_depth', 0) < 4:
+                ev_ = sym.Evaluator(self.facts)
+                vv, tt = ev_.ev(hf_['thir'], sym.Ctx(ev_, hf_))
+                if tt == ['eps']:
+                    gens = [g_ if isinstance(g_, str) else g_.get('name') for g_ in (hf_.get('generics') or [])]
+                    gens = [g_ for g_ in gens if g_ and not g_.startswith("'")]
+                    m_ = {g: a for g, a in zip(gens, v[4] or ())}
+                    if m_:
+                        vv = sym.subst_types(vv, m_)
+                    self._fn_depth = getattr(self, '_fn_depth', 0) + 1
+                    try:
+                        return self.num(vv)
+                    finally:
+                        self._fn_depth -= 1
             if nm == 'size_of':
                 return size_of(v[4][0]) if v[4] else None
             if nm == 'max_encoded_len' and v[5] == 'MaxEncodedLen':
